@@ -332,13 +332,13 @@ impl GuiState {
                         ordinal,
                         spec: spec.clone(),
                         stopped: false,
-                        monitor: LineMonitor::new(self.game.clone(), depth_limit),
+                        monitor: LineMonitor::new(self.game.clone(), depth_limit).with_root_legal(oracle::legal_move_strs_checked(&self.game, self.fen.as_deref(), &self.moves)),
                     });
                     self.gos.push(GoRecord {
                         ordinal,
                         spec: spec.clone(),
                         fen: self.game.to_fen(),
-                        legal: oracle::legal_move_strs(&self.game),
+                        legal: oracle::legal_move_strs_checked(&self.game, self.fen.as_deref(), &self.moves),
                         bestmove: None,
                         infos: Vec::new(),
                         stopped_by_gui: false,
